@@ -778,7 +778,19 @@ static void do_foreach(const struct letter *L, int full)
         if (!reachable) { oc(OC_FOREACH_SKIPPED); return; }
         struct fe f = { { 0 }, 0, 3 };
         int r = _vbi_cache_foreach_page(ca, cn, L->pgno, L->subno, (int) L->arg, fe_cb, &f);
-        if (r != 1 || f.n != 3) { viol(1, "foreach returns without the callback asking for it", "r=%d visits=%d", r, f.n); return; }
+        /* The walk ends when the callback asks for it (r = 1 after 3 visits) or - since the repair of the
+         * endless walk, /repo b1325bb - by itself with -1 at its second wrap-around, when every cached page
+         * of the network has been offered at least once. */
+        if (r == -1 && f.n < 3) {
+                for (int i = 0; i < nV; i++) if (V[i].st == V_CACHED && V[i].net == net) {
+                        const struct ttx_page_stat *ps = cache_network_const_page_stat(cn, V[i].pgno);
+                        int seen = 0;
+                        if (V[i].subno < ps->subno_min || V[i].subno > ps->subno_max) continue;
+                        /* by key: a version shadowed by a newer one with the same subno (known finding) is not offered */
+                        for (int k = 0; k < f.n; k++) { struct mver *v = m_by_real(f.cp[k]); if (v && v->pgno == V[i].pgno && v->subno == V[i].subno) seen = 1; }
+                        if (!seen) { viol(1, "foreach ends by itself before every cached page of the network was offered", "r=%d visits=%d", r, f.n); return; }
+                }
+        } else if (r != 1 || f.n != 3) { viol(1, "foreach returns without the callback asking for it", "r=%d visits=%d", r, f.n); return; }
         for (int k = 0; k < f.n; k++) {
                 struct mver *v = m_by_real(f.cp[k]);
                 if (!v || v->st != V_CACHED || v->net != net) { viol(1, "foreach offers a page that is not in the map of this network", "visit %d", k); return; }
